@@ -179,7 +179,7 @@ Section LR.
 End LR.
 
 Ltac lr := first
-  [ assumption | apply LR_scalar
+  [ assumption | reflexivity | apply LR_scalar
   | apply LR_memo; lr | apply LRF_memo; lr | apply LR_reduce; lr | apply LR_oreduce; lr
   | apply LR_map; lr | apply LRF_map; lr | apply LR_map2; lr | apply LRF_map2_l; lr | apply LRF_map2_r; lr
   | apply LR_map3; lr | apply OLRF_where_nan; lr ].
@@ -252,6 +252,8 @@ End Cores.
 (** * from the view back to the result array: shape surgery *)
 Lemma insert_remove_nth k : forall I, (k < length I)%nat -> insert_nth k 0 (remove_nth k I) = set_nth k 0 I.
 Proof. induction k as [|k IH]; intros [|i I] H; cbn in *; try lia; [reflexivity|]. now rewrite IH by lia. Qed.
+Lemma insert_remove_nth_val k v : forall I, (k < length I)%nat -> insert_nth k v (remove_nth k I) = set_nth k v I.
+Proof. induction k as [|k IH]; intros [|i I] H; cbn in *; try lia; [reflexivity|]. now rewrite IH by lia. Qed.
 Lemma remove_nth_length k : forall I, (k < length I)%nat -> length (remove_nth k I) = (length I - 1)%nat.
 Proof. induction k as [|k IH]; intros [|i I] H; cbn in *; try lia. rewrite IH by lia. lia. Qed.
 Lemma zipw_self s : zipw s s = s.
@@ -315,3 +317,76 @@ Proof. intro H. unfold vlen, lane. rewrite map_length, zrange_length. lia. Qed.
 Lemma nthq_lane A k I j : 0 <= j < nth k (shape A) 0 -> nthq (lane A k I) j = get A (set_nth k j I).
 Proof. intro H. unfold nthq, lane. rewrite nth_indep with (d' := get A (set_nth k 0 I)) by (rewrite map_length, zrange_length; lia).
   rewrite (map_nth (fun j => get A (set_nth k j I))). f_equal. f_equal. now apply nth_zrange. Qed.
+
+(** * keepdims reductions broadcast against their input *)
+Lemma bc_reduce f A axis : shape A <> nil -> bc (shape A) (shape (np_reduce f A axis true)).
+Proof. intro Hn. destruct axis as [k0|]; unfold np_reduce, reduce_axis, reduce_all; cbn [shape]; right;
+  [apply dimok_set_nth|apply dimok_ones]. Qed.
+Lemma bc_oreduce f O axis : bc (shape (oval O)) (shape (np_oreduce f O axis true)).
+Proof. unfold np_oreduce. destruct axis as [k0|]; cbn [shape]; right; [apply dimok_set_nth|apply dimok_ones]. Qed.
+
+Lemma rel_rd phi X X' I : rel_of phi X X' -> rd X' I = phi (rd X I).
+Proof. intros [Hs Hg]. unfold rd. now rewrite Hs, Hg. Qed.
+
+Lemma dm_side_bc np_sqrt np_pi memo axis C X sh : memo_ok memo -> shape C = sh -> shape X = sh ->
+  bc sh (shape (dm_side np_sqrt np_pi memo axis C X)).
+Proof. intros Hm HC HX. unfold dm_side. cbv zeta. rewrite (memo_shape memo Hm).
+  set (d := mk_ndo _ _).
+  assert (Hd : shape (oval d) = sh).
+  { unfold d. cbn [oval]. rewrite (memo_shape memo Hm). cbn [oval np_where_nan shape nd_map2]. rewrite HC, HX. apply bshape_self. }
+  assert (B : forall f, bc sh (shape (np_div (np_oreduce f d axis true) (scalar (qdec 6744897501960817 16))))).
+  { intro f. apply bc_map2; [|now left]. rewrite <- Hd. apply bc_oreduce. }
+  unfold np_where. apply bc_map3.
+  - cbn [shape np_isclose0 nd_map]. rewrite (memo_shape memo Hm). apply B.
+  - apply bc_map2; [|now left]. rewrite <- Hd. apply bc_oreduce.
+  - rewrite (memo_shape memo Hm). apply B. Qed.
+
+(** * the two canonical instances: a lane against its 1-D copy, the whole array against its flattened copy *)
+Lemma reduce_shape_ext f g X Y axis kd : shape X = shape Y -> shape (np_reduce f X axis kd) = shape (np_reduce g Y axis kd).
+Proof. intro E. destruct axis as [k0|]; unfold np_reduce, reduce_axis, reduce_all, norm_axis, ndim; destruct kd; cbn [shape]; rewrite ?E; reflexivity. Qed.
+
+Lemma LRF_lane sh k0 I0 A : sh <> nil -> shape A = sh -> in_range sh I0 ->
+  let k := Z.to_nat (k0 mod Z.of_nat (length sh)) in
+  0 <= nth k sh 0 ->
+  LRF (lane_view sh k0 I0) (vec_view (nth k sh 0)) A (of_vec (lane A k I0)).
+Proof. intros Hsh HA HI k Hn. assert (HL : vlen (lane A k I0) = nth k sh 0) by (rewrite vlen_lane; rewrite HA; [reflexivity|exact Hn]).
+  split; [|split; [exact HA|cbn [shape of_vec v_sh vec_view]; now rewrite HL]].
+  constructor; cbn [v_sh v_n v_fam lane_view vec_view]; fold k.
+  - rewrite HA. apply bc_full.
+  - cbn [shape of_vec]. rewrite HL. apply bc_full.
+  - intros j Hj. rewrite (rd_full sh) by (try assumption; now apply in_range_set_nth).
+    rewrite (rd_full (nth k sh 0 :: nil)) by (cbn [shape of_vec in_range]; first [now rewrite HL | split; [lia|exact Logic.I]]).
+    cbn [get of_vec hd]. rewrite nthq_lane by now rewrite HA. reflexivity. Qed.
+
+Lemma all_idx_nonneg_len sh : Z.of_nat (length (all_idx sh)) >= 0.
+Proof. lia. Qed.
+
+Lemma LRF_flat sh A : sh <> nil -> shape A = sh ->
+  LRF (flat_view sh) (vec_view (Z.of_nat (length (all_idx sh)))) A (of_vec (ravel A)).
+Proof. intros Hsh HA. set (N := Z.of_nat (length (all_idx sh))).
+  assert (HL : vlen (ravel A) = N) by (unfold vlen, ravel; now rewrite map_length, HA).
+  split; [|split; [exact HA|cbn [shape of_vec v_sh vec_view]; now rewrite HL]].
+  constructor; cbn [v_sh v_n v_fam flat_view vec_view]; fold N.
+  - rewrite HA. apply bc_full.
+  - cbn [shape of_vec]. rewrite HL. apply bc_full.
+  - intros j Hj. assert (HIj : in_range sh (nth (Z.to_nat j) (all_idx sh) nil)) by (apply in_range_all_idx, nth_In; unfold N in Hj; lia).
+    rewrite (rd_full sh) by assumption.
+    rewrite (rd_full (N :: nil)) by (cbn [shape of_vec in_range]; first [now rewrite HL | split; [lia|exact Logic.I]]).
+    cbn [get of_vec hd]. unfold nthq, ravel. rewrite HA.
+    rewrite nth_indep with (d' := get A nil) by (rewrite map_length; unfold N in Hj; lia). now rewrite map_nth. Qed.
+
+Section CoreShapes.
+  Variables (np_sqrt : Qc -> Qc) (np_pi : Qc) (memo : nd -> nd).
+  Hypothesis Hm : memo_ok memo.
+  Lemma mad_core_shape A axis : shape A <> nil -> shape (mad_core np_sqrt np_pi memo A axis) = shape (np_reduce median1 A axis true).
+  Proof. intro Hn. unfold mad_core. cbv zeta.
+    assert (BL : bc (shape A) (shape (memo (np_reduce median1 A axis true)))) by (rewrite (memo_shape memo Hm); now apply bc_reduce).
+    assert (SD : shape (np_abs (np_sub A (memo (np_reduce median1 A axis true)))) = shape A)
+      by (cbn [shape np_abs nd_map np_sub nd_map2]; now apply bshape_full_l).
+    assert (SR : forall f c, shape (np_div (np_reduce f (np_abs (np_sub A (memo (np_reduce median1 A axis true)))) axis true) (scalar c))
+                 = shape (np_reduce median1 A axis true)).
+    { intros f c. cbn [shape np_div nd_map2 scalar]. rewrite bshape_nil_r'. now apply reduce_shape_ext. }
+    destruct (np_any _); rewrite (memo_shape memo Hm); [|apply SR].
+    cbn [shape np_where nd_map3]. rewrite !(memo_shape memo Hm). cbn [shape np_isclose0 nd_map].
+    rewrite !(memo_shape memo Hm), !SR. now rewrite !bshape_self. Qed.
+End CoreShapes.
